@@ -29,6 +29,7 @@ import (
 	"net"
 	"net/http"
 	"net/url"
+	"os"
 	"reflect"
 	"runtime"
 	"sort"
@@ -1906,14 +1907,27 @@ func runFetch(c *vk.C, f *fetchSpec) {
 // ---------- main -----------------------------------------------------------------------
 
 func TestCheck(t *testing.T) {
-	r := vk.New("C14")
+	// C09's clause "the in-flight count equals the requests outstanding at some peer or web seed" is
+	// decided for web seeds by this workload: run with VERIF_PROP=C09 it reports only what that clause
+	// forbids (a reserved block never released, or released more often than reserved).
+	prop := os.Getenv("VERIF_PROP")
+	if prop == "" {
+		prop = "C14"
+	}
+	r := vk.New(prop)
 	defer r.Done()
+	if prop == "C09" {
+		r.KindFilter = func(kind string) bool { return kind == "leak-inflight" || kind == "over-release" }
+	}
 	r.Note("handler_release_measure", "slots released per TorData/TorDrop are counted as \""+underflowMsg+"\" lines logged by the real event loop of an idle torrent of the same geometry (calibrated: 1 full block -> 1 line)")
 	r.Note("hoffman", "fake Hoffman seed serves end-start bytes for ranges=start-end as storrent means it; only storage-side clauses judged")
 	nSplit := r.Env.N(3000, 300000)
 	nb := len(grBehaviours) + len(hBehaviours)
 	nFetch := nb * r.Env.N(30, 1000)
 	nLarge := r.Env.N(24, 240)
+	if prop == "C09" {
+		nLarge = 0 // the large part judges request placement only
+	}
 	for i := 0; i < nSplit+nFetch+nLarge; i++ {
 		if !r.Mine(i) {
 			continue
